@@ -505,3 +505,108 @@ def paramuse(cx, trait_method_glob, pname, rule='PARAMUSE', floor=1):
         ok, how = param_influences(b, idx)
         cx.ob(rule, f'{b.name}:{pname}', ok, f'{b.name}: the result depends on `{pname}` ({how})', where=b.file, found=None if ok else how)
     cx.floor(rule, f'{trait_method_glob}:{pname}', n, floor, f'implementations of {trait_method_glob}')
+
+
+# ------------------------------------------------------------------------------------------------ POSDOT
+
+def _consumers(b, l, seen=None):
+    """statements / terminators that read local l (through whole-local copies) -> [(kind, bb, idx, payload, local read)]"""
+    seen = seen if seen is not None else set()
+    if l in seen:
+        return []
+    seen.add(l)
+    out = []
+    for bi in b.live:
+        blk = b.blocks[bi]
+        for si, s in enumerate(blk['stmts']):
+            rv = s['rv']
+            if l not in [x for o in _ops_of_rvalue(rv) for x in _locals_of_op(o)]:
+                continue
+            if rv['k'] == 'use' and not s['pl']['p']:
+                out += _consumers(b, s['pl']['l'], seen)
+            else:
+                out.append(('stmt', bi, si, s, l))
+        t = blk['term']
+        if t['k'] == 'call' and l in [x for o in t['args'] for x in _locals_of_op(o)]:
+            out.append(('call', bi, len(blk['stmts']), t, l))
+        if t['k'] == 'switch' and l in list(_locals_of_op(t['d'])):
+            out.append(('switch', bi, len(blk['stmts']), t, l))
+    return out
+
+
+def posdot(cx, rule='POSDOT', floor=0):
+    """A position (the coordinates of a stored / given point) may enter a dot product with a direction only as part of a DIFFERENCE
+    of projections along that same direction: n.p - n.q (compared or subtracted), n.p - d with d the offset stored with the same
+    n, or as that offset d = n.p itself. A lone n.p compared with a constant depends on where the origin is."""
+    from .core import simplify, show
+    from .pattern import match, find
+    n = 0
+    for b in user_bodies(cx.facts):
+        dag = None
+        for s in b.calls('Matrix::dot'):
+            d = cx.call(s)
+            e = match('(call Matrix::dot $dir (field coords $p))', d) or match('(call Matrix::dot (field coords $p) $dir)', d)
+            if e is None:
+                continue
+            base = e['p']
+            if base[0] == 'call' and base[1] in ('Matrix::mul', 'Matrix::add', 'Matrix::sub', 'OPoint::from'):
+                continue        # a computed quantity typed as a point by nalgebra (matrix derivative applied to an offset): not decided
+            n += 1
+            k_in_fn = sum(1 for o in cx.obs if o.key.startswith(f'{cx.prop}:{rule}:{b.name}#'))
+            dag = dag or b.dag()
+            dirn = e['dir']
+            dest = s.data['dest']['l']
+            cons = _consumers(b, dest)
+            ok = bool(cons)
+            why = []
+            for kind, bi, si, pay, lread in cons:
+                good = False
+                if kind == 'stmt' and pay['rv']['k'] == 'bin' and pay['rv']['op'] in ('Sub', 'Lt', 'Le', 'Gt', 'Ge'):
+                    rv = pay['rv']
+                    others = [o for o in (rv['a'], rv['b']) if lread not in list(_locals_of_op(o))]
+                    if len(others) == 1:
+                        x = simplify(dag.operand(others[0], bi, si))
+                        e2 = match('(call Matrix::dot $dir (field coords _))', x, {'dir': dirn}) or match('(call Matrix::dot (field coords _) $dir)', x, {'dir': dirn})
+                        if e2 is not None:
+                            good = True
+                        elif rv['op'] == 'Sub' and match('(field normal $b)', dirn) is not None and match('(field d $b)', x, match('(field normal $b)', dirn)) is not None:
+                            good = True
+                        elif rv['op'] != 'Sub' and x[0] == 'phi' and all(a[0] == 'loop' or (a[0] == 'const' and isinstance(a[1], float) and abs(a[1]) > 1e300) for a in x[1:]):
+                            # running extremum: the carried value is only ever assigned from this projection
+                            carried = [a for a in x[1:] if a[0] == 'loop']
+                            good = True
+                            for a in carried:
+                                cl, h = a[1], a[2]
+                                for (dbi, dsi, dk, dp) in b.defs().get(cl, []):
+                                    if dbi in b.loop_blocks(h):
+                                        if not (dk == 'assign' and dp['rv']['k'] == 'use' and dest in list(_locals_of_op(dp['rv']['a'])) or
+                                                (dk == 'assign' and dp['rv']['k'] == 'use' and any(c[3] is dp for c in cons))):
+                                            srcs = list(_locals_of_op(dp['rv'].get('a', {}))) if dk == 'assign' and dp['rv']['k'] == 'use' else []
+                                            if not srcs or not all(_is_copy_of(b, x_, dest) for x_ in srcs):
+                                                good = False
+                elif kind == 'call':
+                    nm, raw = b.callee(pay)
+                    if nm.endswith('Plane3::new') and len(pay['args']) == 2:
+                        a0 = simplify(dag.operand(pay['args'][0], bi, si))
+                        good = (a0 == dirn) and lread in list(_locals_of_op(pay['args'][1]))
+                elif kind == 'stmt' and pay['rv']['k'] == 'use':
+                    # assignment to a projected place (e.g. the running extremum variable); handled through the comparison
+                    good = True
+                if not good:
+                    why.append(f'{kind} at {b.file}')
+                ok = ok and good
+            cx.ob(rule, f'{b.name}#{k_in_fn}', ok,
+                  f'{b.name}: the projection of position {show(base)[:80]} on a direction is only used in a difference of projections along the same '
+                  'direction (or as the plane offset stored with that normal); alone it depends on where the origin is',
+                  where=s, found=None if ok else show(d)[:300])
+    cx.floor(rule, 'position-projection-sites', n, floor, 'dot products of a direction with the coordinates of a stored / given position')
+
+
+def _is_copy_of(b, l, src, depth=0):
+    if l == src:
+        return True
+    if depth > 6:
+        return False
+    ds = b.defs().get(l, [])
+    return bool(ds) and all(dk == 'assign' and dp['rv']['k'] == 'use' and not dp['pl']['p'] and
+                            all(_is_copy_of(b, x, src, depth + 1) for x in _locals_of_op(dp['rv']['a'])) for (_, _, dk, dp) in ds)
